@@ -5,7 +5,6 @@ From Coq Require Import NArith List Bool String.
 Import ListNotations.
 From Verif.model Require Import AgreementTypes AgreementVotes.
 Open Scope N_scope.
-Open Scope string_scope.
 
 (* LateCredentialTrackingEffect *)
 Definition note_none : N := 0.
